@@ -30,8 +30,12 @@ func c09Item(r *RNG) ItemSpec {
 	case 3, 4:
 		// String() plus Height() and/or TerminalCellWidth() overrides
 		mask := 1 + 8*r.Intn(2) + 16*r.Intn(2)
+		if r.Pct(30) {
+			// other method sets: none at all (%v of the value), GoString only, Error only, combinations
+			mask = pick(r, []int{0, 2, 4, 6, 3, 5, 7, 8, 16, 24, 10, 20})
+		}
 		s := pick(r, []string{"", "x", "one\ntwo", "a\nb\nc\n", "\x1b[1mbold\x1b[0m", "日本語", "\n"})
-		return ItemSpec{K: "obj", Mask: mask, S: []byte(s), H: pick(r, []int{-1, 0, 1, 2, 5}), W: pick(r, []int{-3, 0, 1, 2, 40})}
+		return ItemSpec{K: "obj", Mask: mask, S: []byte(s), G: []byte("g:" + s), E: []byte(s + ":e"), H: pick(r, []int{-1, 0, 1, 2, 5}), W: pick(r, []int{-3, 0, 1, 2, 40})}
 	default:
 		return Str(pick(r, []string{"", "a", "bb", "x y", "l1\nl2", "l1\nl2\n", "\n", "\n\n", "é", "日本", "q\"r", "p|q", "<i>", "t\tb", "a\r\nb", "\xff\xfe"}))
 	}
